@@ -1,7 +1,8 @@
 /-
-C01, finding D70: `nmating * nprogeny` in a narrow count dtype.  When no per-cross product reaches the
-dtype's limit the wrapped product is the exact one (so every theorem of Props/C01 section 2, which the model
-states over ℕ, speaks about the real code); otherwise it is not.
+C01, defect D70 (repaired): `nmating * nprogeny`.  Before the repair the three protocols that form the per-cross
+product formed it in the dtype of the count arrays (`countProductPrerepair`); the repaired code forms it in int64
+(`countProduct`).  The int64 product is the exact one for counts of every narrower dtype, so every theorem of
+Props/C01 section 2 (the model states them over ℕ) speaks about the real code.
 -/
 import Mathlib.Tactic
 import PybropsModel.Model.Mating
@@ -22,15 +23,51 @@ theorem wrapMul_exact (bits : Nat) (signed : Bool) (a b : Nat)
     have : ¬ (2 ^ (bits - 1) ≤ a * b) := by omega
     simp [this]
 
-theorem countProductAsIs_exact (bits : Nat) (signed : Bool) : ∀ (nm np : List Nat),
+theorem countProductPrerepair_exact (bits : Nat) (signed : Bool) : ∀ (nm np : List Nat),
     (∀ p ∈ List.zip nm np, p.1 * p.2 < 2 ^ (bits - (if signed then 1 else 0))) →
-    countProductAsIs bits signed nm np = (List.zipWith (fun (x y : Nat) => x * y) nm np).map (fun (n : Nat) => (n : Int))
-  | [], _, _ => by simp [countProductAsIs]
-  | _ :: _, [], _ => by simp [countProductAsIs]
+    countProductPrerepair bits signed nm np
+      = (List.zipWith (fun (x y : Nat) => x * y) nm np).map (fun (n : Nat) => (n : Int))
+  | [], _, _ => by simp [countProductPrerepair]
+  | _ :: _, [], _ => by simp [countProductPrerepair]
   | a :: nm, b :: np, h => by
     have h0 := h (a, b) (by simp)
-    have ih := countProductAsIs_exact bits signed nm np (fun p hp => h p (by simp [hp]))
-    simp only [countProductAsIs, List.zipWith_cons_cons, List.map_cons] at ih ⊢
+    have ih := countProductPrerepair_exact bits signed nm np (fun p hp => h p (by simp [hp]))
+    simp only [countProductPrerepair, List.zipWith_cons_cons, List.map_cons] at ih ⊢
     rw [wrapMul_exact bits signed a b h0, ih]
+
+theorem countProduct_eq_prerepair64 (nm np : List Nat) : countProduct nm np = countProductPrerepair 64 true nm np := rfl
+
+/-- the int64 product is exact while every per-cross product is below `2^63` -/
+theorem countProduct_exact_of_lt (nm np : List Nat) (h : ∀ p ∈ List.zip nm np, p.1 * p.2 < 2 ^ 63) :
+    countProduct nm np = (List.zipWith (fun (x y : Nat) => x * y) nm np).map (fun (n : Nat) => (n : Int)) := by
+  rw [countProduct_eq_prerepair64]
+  exact countProductPrerepair_exact 64 true nm np (by simpa using h)
+
+theorem zip_bounds {nm np : List Nat} {A B : Nat} (hnm : ∀ a ∈ nm, a < A) (hnp : ∀ b ∈ np, b < B) :
+    ∀ p ∈ List.zip nm np, p.1 * p.2 < A * B := by
+  intro p hp
+  obtain ⟨a, b⟩ := p
+  have ha := hnm a (List.of_mem_zip hp).1
+  have hb := hnp b (List.of_mem_zip hp).2
+  exact Nat.mul_lt_mul'' ha hb
+
+/-- … in particular for counts of every integer dtype of at most 32 bits (`int8 … int32`, `uint8`, `uint16`: every
+    count `< 2^31`; one of the two arrays may even be `uint32`) -/
+theorem countProduct_exact_narrow (nm np : List Nat) (hnm : ∀ a ∈ nm, a < 2 ^ 31) (hnp : ∀ b ∈ np, b < 2 ^ 32) :
+    countProduct nm np = (List.zipWith (fun (x y : Nat) => x * y) nm np).map (fun (n : Nat) => (n : Int)) := by
+  apply countProduct_exact_of_lt
+  intro p hp
+  have := zip_bounds hnm hnp p hp
+  calc p.1 * p.2 < 2 ^ 31 * 2 ^ 32 := this
+    _ = 2 ^ 63 := by norm_num
+
+/-- the repair changes nothing where the old code was right: whenever no product reached the limit of the count
+    dtype (any dtype up to int64 / uint32… : `bits - sign bit ≤ 63`), the old product and the int64 product coincide -/
+theorem countProduct_agrees_prerepair (bits : Nat) (signed : Bool) (hb : bits - (if signed then 1 else 0) ≤ 63)
+    (nm np : List Nat) (h : ∀ p ∈ List.zip nm np, p.1 * p.2 < 2 ^ (bits - (if signed then 1 else 0))) :
+    countProductPrerepair bits signed nm np = countProduct nm np := by
+  rw [countProductPrerepair_exact bits signed nm np h, countProduct_exact_of_lt]
+  intro p hp
+  exact lt_of_lt_of_le (h p hp) (Nat.pow_le_pow_right (by norm_num) hb)
 
 end Mating
